@@ -934,9 +934,76 @@ func checkRewriteValidateRestore(c *Ctx, rule string) {
 		return false
 	}
 	n := 0
+	// Helpers of the package are part of the rewrite function (the format/parse/compile step may live in one); the
+	// atomic writers and the restoring helpers stay calls, they are what the rule refers to. A function that merely
+	// calls a rewrite function would look like one after expansion: per replacing write, the smallest qualifying
+	// function is the one decided.
+	keepWriters := func(callee *ssa.Function) bool { return atomic[callee] || isRestore(callee) }
+	qualifies := func(fn *ssa.Function) bool {
+		writes := allCalls(fn, func(ci ssa.CallInstruction) bool {
+			f := ci.Common().StaticCallee()
+			return f != nil && atomic[f]
+		})
+		nRestoreSites, nPrimary := 0, 0
+		for _, w := range writes {
+			if isPreviousBytes(w.Common().Args[1], fn) {
+				nRestoreSites++
+			} else {
+				nPrimary++
+			}
+		}
+		for range allCalls(fn, func(ci ssa.CallInstruction) bool {
+			f := ci.Common().StaticCallee()
+			if f == nil {
+				for _, t := range funcValueTargets(ci.Common().Value, 0) {
+					if isRestore(t) {
+						return true
+					}
+				}
+				return false
+			}
+			return !atomic[f] && isRestore(f) && p.Orig(f) != p.Orig(fn)
+		}) {
+			nRestoreSites++
+		}
+		res := fn.Signature.Results()
+		return nPrimary > 0 && nRestoreSites > 0 && res.Len() > 0 && types.Identical(res.At(res.Len()-1).Type(), types.Universe.Lookup("error").Type())
+	}
+	fnSize := func(f *ssa.Function) int {
+		k := 0
+		for _, b := range f.Blocks {
+			k += len(b.Instrs)
+		}
+		return k
+	}
+	chosen := map[ssa.Instruction]*ssa.Function{} // source write instruction -> smallest qualifying view
 	for _, pkg := range []string{"app", "mcp"} {
 		for _, fn := range p.FuncsInPkg(pkg) {
 			if fn.Parent() != nil || atomic[fn] {
+				continue
+			}
+			v := p.ViewKeeping(fn, keepWriters)
+			if !qualifies(v) {
+				continue
+			}
+			for _, w := range allCalls(v, func(ci ssa.CallInstruction) bool {
+				f := ci.Common().StaticCallee()
+				return f != nil && atomic[f]
+			}) {
+				src := p.SourceInstr(w)
+				if cur := chosen[src]; cur == nil || fnSize(v) < fnSize(cur) {
+					chosen[src] = v
+				}
+			}
+		}
+	}
+	selected := map[*ssa.Function]bool{}
+	for _, v := range chosen {
+		selected[v] = true
+	}
+	for _, pkg := range []string{"app", "mcp"} {
+		for _, fn := range sortedFuncs(selected) {
+			if fn.Pkg == nil || fn.Pkg.Pkg.Name() != pkg {
 				continue
 			}
 			writes := allCalls(fn, func(ci ssa.CallInstruction) bool {
@@ -967,7 +1034,7 @@ func checkRewriteValidateRestore(c *Ctx, rule string) {
 					}
 					return false
 				}
-				return !atomic[f] && isRestore(f) && f != fn
+				return !atomic[f] && isRestore(f) && p.Orig(f) != p.Orig(fn)
 			}) {
 				_ = ci
 				nRestoreSites++
@@ -1092,7 +1159,7 @@ func checkRewriteValidateRestore(c *Ctx, rule string) {
 					}
 					return false
 				}
-				return !atomic[f] && isRestore(f) && f != fn
+				return !atomic[f] && isRestore(f) && p.Orig(f) != p.Orig(fn)
 			}) {
 				restores = append(restores, ci)
 			}
